@@ -6,6 +6,7 @@ import (
 	"fmt"
 	"math"
 	"math/rand"
+	"runtime/debug"
 	"strings"
 
 	"github.com/cloudwego/gopkg/protocol/thrift"
@@ -261,16 +262,22 @@ func runUFCase(raw json.RawMessage, w *TraceWriter) {
 		var fs []uf.UnknownField
 		var err error
 		panicked := false
+		gin := guardCopy(in)
+		if gin == nil {
+			gin = in
+		}
 		func() {
+			old := debug.SetPanicOnFault(true)
+			defer debug.SetPanicOnFault(old)
 			defer func() {
 				if p := recover(); p != nil {
 					panicked = true
 				}
 			}()
 			if api == "get" {
-				fs, err = uf.GetUnknownFields(&withUnknown{A: 1, _unknownFields: in})
+				fs, err = uf.GetUnknownFields(&withUnknown{A: 1, _unknownFields: gin})
 			} else {
-				fs, err = uf.ConvertUnknownFields(in)
+				fs, err = uf.ConvertUnknownFields(gin)
 			}
 		}()
 		ok := err == nil && !panicked
